@@ -353,3 +353,16 @@ def latch_flags(body, after_blocks):
         if tr:
             out[l] = (sets, tr, fl)
     return out
+
+
+def deep_fields(prog, sl, depth=2):
+    """ADT fields on a slice, including those read inside the closures the slice passes through (`opt.and_then(|g| g.field)`)"""
+    out = set(sl.fields)
+    if depth <= 0:
+        return out
+    for l in sl.leaves_like("closure:"):
+        cb = prog.body(l[8:])
+        if cb is None:
+            continue
+        out |= deep_fields(prog, origins(cb, {"l": 0, "p": []}), depth - 1)
+    return out
